@@ -52,7 +52,7 @@ func (p *parser) parseMeta(i int, c *section.Change) (*Meta, error) {
 		file.AddLineColumnInfo(line.Offset, p.Filename, p.Line, p.Column)
 	}
 
-	parser := metaParser{fset: p.fset}
+	parser := metaParser{fset: p.fset, end: c.AtPos}
 	var scanner scanner.Scanner
 	scanner.Init(file, metaContents, parser.onError, 0 /* mode */)
 	parser.scanner = &scanner
@@ -65,6 +65,7 @@ type metaParser struct {
 	scanner *scanner.Scanner
 
 	fset *token.FileSet
+	end  token.Pos   // position of the "@@" that closes the section
 	pos  token.Pos   // current token position
 	tok  token.Token // current token
 	text string      // current token contents
@@ -91,6 +92,12 @@ func (p *metaParser) errf(msg string, args ...any) {
 // Advances to the next token.
 func (p *metaParser) next() {
 	p.pos, p.tok, p.text = p.scanner.Scan()
+	if p.tok == token.EOF && p.end.IsValid() {
+		// The section ends where the "@@" that closes it begins. A
+		// declaration that is cut short ran into that, not into a
+		// column behind the end of the last line.
+		p.pos = p.end
+	}
 }
 
 // Parses the metavariables section.
